@@ -53,7 +53,10 @@ func VerifC37Rebuild() {
 
 	a, b, c := c37V4("a"), c37V4("b"), c37V4("c")
 	d := &V6AddrPort{Hi: verifU64("d_hi"), Lo: verifU64("d_lo"), Port: uint32(verifU16("d_port"))}
-	r.unlockedSetLearnedV4(owner1, a)
+	d2 := &V6AddrPort{Hi: verifU64("d2_hi"), Lo: verifU64("d2_lo"), Port: uint32(verifU16("d2_port"))}
+	if verifCase("shape") != 3 {
+		r.unlockedSetLearnedV4(owner1, a)
+	}
 	_ = c
 	_ = all6
 	_ = d
@@ -61,6 +64,8 @@ func VerifC37Rebuild() {
 	case 0: // a learned, the same address reported again by a second owner (duplicate)
 		r.unlockedSetV4(owner2, peer, []*V4AddrPort{{Addr: a.Addr, Port: a.Port}}, all)
 		b = a
+	case 3: // d and d2 reported (two arbitrary IPv6 entries)
+		r.unlockedSetV6(owner2, peer, []*V6AddrPort{d, d2}, all6)
 	case 2: // a learned, b reported (two arbitrary IPv4 entries)
 		r.unlockedSetV4(owner2, peer, []*V4AddrPort{b}, all)
 	default: // a learned (IPv4), d reported (IPv6)
@@ -69,6 +74,10 @@ func VerifC37Rebuild() {
 	in := [4]netip.AddrPort{protoV4AddrPortToNetAddrPort(a), protoV4AddrPortToNetAddrPort(b), protoV4AddrPortToNetAddrPort(a), protoV4AddrPortToNetAddrPort(a)}
 	if verifCase("shape") == 1 {
 		in[1] = protoV6AddrPortToNetAddrPort(d)
+	}
+	if verifCase("shape") == 3 {
+		in[0], in[1] = protoV6AddrPortToNetAddrPort(d), protoV6AddrPortToNetAddrPort(d2)
+		in[2], in[3] = in[0], in[0]
 	}
 
 	blocked := netip.AddrPortFrom(netip.AddrFrom4([4]byte{verifU8("bad0"), verifU8("bad1"), verifU8("bad2"), verifU8("bad3")}), verifU16("bad_port"))
